@@ -17,7 +17,7 @@ class MpiRun:
 
 
 def run_mpi(exe, scenario, nranks, tag, timeout=60, threads=1):
-    d = os.path.join(pv.OUT, tag)
+    d = os.path.join(pv.OUT, "%s.%d" % (tag, os.getpid()))       # per process: the same check may be running on another tree
     shutil.rmtree(d, ignore_errors=True)
     os.makedirs(d)
     sc = dict(scenario)
@@ -49,13 +49,15 @@ def run_mpi(exe, scenario, nranks, tag, timeout=60, threads=1):
                 except Exception:
                     pass
         r.logs.append(evs)
+    if not os.environ.get("VERIF_KEEP_TRACES"):
+        shutil.rmtree(d, ignore_errors=True)
     return r
 
 
 TAGS = {0: "Pending", 1: "Work", 2: "Finish"}
 
 
-def dispatcher_trace(run, J, R, boss=True):
+def dispatcher_trace(run, J, R, boss=True, ids=None):
     """Filter each rank's log to the events DispatcherTrace.tla consumes (selection by kind only)."""
     lines = []
     for k, evs in enumerate(run.logs):
@@ -78,18 +80,23 @@ def dispatcher_trace(run, J, R, boss=True):
                 out.append(["Run", e["job"]])
             elif t == "RoundEnd":
                 out.append(["RoundEnd", e["map"]])
-        lines.append({"rank": k, "J": J, "R": R, "boss": bool(boss), "ev": out})
+        lines.append({"rank": k, "J": J, "ids": list(ids) if ids is not None else list(range(J)), "R": R, "boss": bool(boss), "ev": out})
     return lines
 
 
 def validate_dispatcher(lines, tag, timeout=300):
     """Returns (accepted, TlcResult). Acceptance = TLC reaches a state in which all logs are consumed (NotAccepted violated)."""
-    path = os.path.join(pv.OUT, tag + ".ndjson")
+    path = os.path.join(pv.OUT, "%s.%d.ndjson" % (tag, os.getpid()))
     os.makedirs(os.path.dirname(path), exist_ok=True)
     with open(path, "w") as f:
         for ln in lines:
             f.write(json.dumps(ln, separators=(",", ":")) + "\n")
     r = pv.run_tlc("DispatcherTrace", "DispatcherTrace", workers=1, env={"TRACE": path}, timeout=timeout, depth_first=True)
+    if not os.environ.get("VERIF_KEEP_TRACES"):
+        try:
+            os.unlink(path)
+        except OSError:
+            pass
     if r.violated == "NotAccepted":
         return True, r
     return False, r
